@@ -453,34 +453,77 @@ Qed.
 (* ------------------------------------------------------------------------------------------ *)
 (** * rounding precision *)
 
-Lemma precision_none opts ms :
-  precision_of opts ms = None <-> Forall (fun pv => ms < snd pv) opts.
+Lemma Qle_bool_false v ms : Qle_bool v ms = false -> ms < v.
 Proof.
-  induction opts as [|[p v] r IH]; simpl; [split; [constructor | reflexivity]|].
-  destruct (Qle_bool v ms) eqn:E.
-  - split; [discriminate|]. intros H. inversion H; subst. simpl in *. apply Qle_bool_iff in E. lra.
-  - rewrite IH. split; intros H.
-    + constructor; [|exact H]. simpl. destruct (Qlt_le_dec ms v); [assumption|].
-      apply Qle_bool_iff in q. congruence.
-    + now inversion H.
+  intros E. destruct (Qlt_le_dec ms v) as [L|L]; [exact L|]. apply Qle_bool_iff in L. congruence.
 Qed.
 
-Lemma precision_some opts ms p :
-  precision_of opts ms = Some p ->
-  exists l1 v l2, opts = l1 ++ (p, v) :: l2 /\ v <= ms /\ Forall (fun pv => ms < snd pv) l1.
+(** the loop leaves the initial value exactly when no option fits *)
+Lemma precision_fallback opts init ms :
+  Forall (fun pv => ms < snd pv) opts -> precision_of opts init ms = init.
 Proof.
-  induction opts as [|[q v] r IH]; simpl; [discriminate|].
+  induction 1 as [|[p v] r H _ IH]; simpl; [reflexivity|].
+  simpl in H. destruct (Qle_bool v ms) eqn:E; [|exact IH]. apply Qle_bool_iff in E. lra.
+Qed.
+
+(** what the loop returns: the first option (in the order of the list) whose threshold is <= the spacing,
+    the initial value when there is none *)
+Lemma precision_spec opts init ms :
+  (exists l1 p v l2, opts = l1 ++ (p, v) :: l2 /\ v <= ms /\ Forall (fun pv => ms < snd pv) l1 /\
+                     precision_of opts init ms = Some p) \/
+  (Forall (fun pv => ms < snd pv) opts /\ precision_of opts init ms = init).
+Proof.
+  induction opts as [|[q v] r IH]; simpl; [right; split; [constructor | reflexivity]|].
   destruct (Qle_bool v ms) eqn:E.
-  - intros [= ->]. exists [], v, r. repeat split; [now apply Qle_bool_iff | constructor].
-  - intros H. destruct (IH H) as (l1 & v' & l2 & -> & Hv & Hf).
-    exists ((q, v) :: l1), v', l2. repeat split; [exact Hv|]. constructor; [|exact Hf].
-    simpl. destruct (Qlt_le_dec ms v); [assumption|]. apply Qle_bool_iff in q0. congruence.
+  - left. exists [], q, v, r. repeat split; [now apply Qle_bool_iff | constructor].
+  - apply Qle_bool_false in E. destruct IH as [(l1 & p & v' & l2 & -> & Hv & Hf & Hp)|[Hf Hp]].
+    + left. exists ((q, v) :: l1), p, v', l2. repeat split; [exact Hv | constructor; [exact E | exact Hf] | exact Hp].
+    + right. split; [constructor; [exact E | exact Hf] | exact Hp].
+Qed.
+
+(** with an integer initial value the choice is total, and is that value or one of the options *)
+Lemma precision_total opts k ms :
+  exists p, precision_of opts (Some k) ms = Some p /\ (p = k \/ In p (map fst opts)).
+Proof.
+  destruct (precision_spec opts (Some k) ms) as [(l1 & p & v & l2 & -> & _ & _ & Hp)|[_ Hp]].
+  - exists p. split; [exact Hp|]. right. rewrite map_app, in_app_iff. right. now left.
+  - exists k. split; [exact Hp | now left].
+Qed.
+
+Lemma precision_some opts init ms p :
+  precision_of opts init ms = Some p ->
+  (exists l1 v l2, opts = l1 ++ (p, v) :: l2 /\ v <= ms /\ Forall (fun pv => ms < snd pv) l1) \/
+  (init = Some p /\ Forall (fun pv => ms < snd pv) opts).
+Proof.
+  intros H. destruct (precision_spec opts init ms) as [(l1 & q & v & l2 & E & Hv & Hf & Hp)|[Hf Hp]].
+  - left. rewrite Hp in H. injection H as <-. exists l1, v, l2. auto.
+  - right. split; [congruence | exact Hf].
+Qed.
+
+(** without an integer initial value (the code before the repair) nothing is found exactly when no option fits *)
+Lemma precision_none opts ms :
+  precision_of opts None ms = None <-> Forall (fun pv => ms < snd pv) opts.
+Proof.
+  split.
+  - intros H. destruct (precision_spec opts None ms) as [(l1 & q & v & l2 & E & Hv & Hf & Hp)|[Hf Hp]]; [congruence | exact Hf].
+  - apply precision_fallback.
+Qed.
+
+Lemma max_key_in opts k : max_key opts = Some k -> In k (map fst opts) /\ Forall (fun pv => (fst pv <= k)%Z) opts.
+Proof.
+  revert k. induction opts as [|[p v] r IH]; simpl; [discriminate|].
+  destruct (max_key r) as [q|] eqn:E.
+  - intros k [= <-]. destruct (IH q eq_refl) as [Hi Hf]. split.
+    + destruct (Z.max_spec p q) as [[_ ->]|[_ ->]]; [right; exact Hi | now left].
+    + constructor; [simpl; lia|]. eapply Forall_impl; [|exact Hf]. simpl. intros a Ha. lia.
+  - intros k [= <-]. split; [now left|]. constructor; [simpl; lia|].
+    destruct r as [|[p' v'] r']; [constructor|]. simpl in E. destruct (max_key r'); discriminate.
 Qed.
 
 (* ------------------------------------------------------------------------------------------ *)
 (** * outcome of a call *)
 
-Lemma run_never_refuses opts dflt m vt feats ps : run_outcome opts dflt m vt feats ps <> Refuse.
+Lemma run_never_refuses opts init dflt m vt feats ps : run_outcome opts init dflt m vt feats ps <> Refuse.
 Proof.
   unfold run_outcome.
   repeat match goal with
@@ -489,31 +532,86 @@ Proof.
 Qed.
 
 (** a LeaspyAlgoInputError can only come from the constructor, i.e. before anything is drawn *)
-Lemma refusal_is_constructor opts dflt m d :
-  simulate_outcome opts dflt m d = Refuse <-> construct d = Refuse.
+Lemma refusal_is_constructor opts init dflt m d :
+  simulate_outcome opts init dflt m d = Refuse <-> construct d = Refuse.
 Proof.
   unfold simulate_outcome. destruct (construct d) as [ps| |]; split; try discriminate; try reflexivity.
   destruct (d_visit_type d); [|discriminate]. intros H. now apply run_never_refuses in H.
 Qed.
 
-(** exact characterisation of the accepted designs on which [_run] completes *)
-Definition spacing_ok (opts : list (Z * Q)) (dflt : Q) (vt : vtype) (ps : dict) : Prop :=
+(** ** validation guarantees a numeric spacing *)
+
+Lemma exec_rows_app d r1 r2 f :
+  exec_rows d (r1 ++ r2) f = match exec_rows d r1 f with None => None | Some f' => exec_rows d r2 f' end.
+Proof.
+  revert f. induction r1 as [|[k ss] r IH]; intros f; simpl; [reflexivity|].
+  destruct (exec_stmts (lookup k d) ss f); [apply IH | reflexivity].
+Qed.
+
+(** the optional-key block of [_check_params]: a spacing that is present and not a number sets the type flag
+    (and then raises on the sign test) *)
+Lemma spacing_row_numeric d f f' :
+  exec_rows d [row_spacing] f = Some f' -> any_flag f' = false ->
+  match lookup "min_spacing_between_visits" d with None => True | Some v => isinst TNum v = true end.
+Proof.
+  unfold row_spacing. simpl. destruct (lookup "min_spacing_between_visits" d) as [v|]; [|trivial].
+  destruct v; simpl; try reflexivity; try discriminate.
+Qed.
+
+Lemma isinst_num v : isinst TNum v = true -> exists q, num_of v = Some q.
+Proof. destruct v; simpl; try discriminate; eauto. Qed.
+
+Lemma checked_spacing_numeric rows d dflt :
+  check_params d (rows ++ [row_spacing]) = Ok tt -> exists ms, min_spacing_of dflt d = Some ms.
+Proof.
+  unfold check_params. rewrite exec_rows_app.
+  destruct (exec_rows d rows no_flags) as [f|]; [|discriminate].
+  destruct (exec_rows d [row_spacing] f) as [f'|] eqn:E; [|discriminate].
+  destruct (any_flag f') eqn:A; [discriminate|]. intros _.
+  pose proof (spacing_row_numeric d f f' E A) as H. unfold min_spacing_of.
+  destruct (lookup "min_spacing_between_visits" d) as [v|]; [now apply isinst_num | eauto].
+Qed.
+
+(** what an accepted design guarantees about the spacing handed to [_generate_dataset] *)
+Definition spacing_ok (dflt : Q) (vt : vtype) (ps : dict) : Prop :=
   match vt with
-  | VtRandom => exists ms, min_spacing_of dflt ps = Some ms /\ precision_of opts ms <> None
-  | VtDataframe => precision_of opts dflt <> None
+  | VtRandom => exists ms, min_spacing_of dflt ps = Some ms
+  | VtDataframe => True
   | VtOther => False
   end.
 
-Definition runnable (opts : list (Z * Q)) (dflt : Q) (m : model_shape) (vt : vtype) (feats : featsv) (ps : dict) : Prop :=
+Lemma validated_spacing_ok dflt vt feats ps : validate vt feats ps = Ok tt -> spacing_ok dflt vt ps.
+Proof.
+  unfold validate. destruct (check_features feats); try discriminate.
+  destruct vt; simpl; [| trivial | discriminate].
+  destruct (check_params ps random_rows) as [[]| |] eqn:E; try discriminate. intros _.
+  change random_rows with (removelast random_rows ++ [row_spacing]) in E.
+  exact (checked_spacing_numeric _ _ dflt E).
+Qed.
+
+Lemma accepted_spacing_ok dflt d ps vt :
+  construct d = Ok ps -> d_visit_type d = Some vt -> spacing_ok dflt vt ps.
+Proof.
+  unfold construct. intros H E. rewrite E in H.
+  destruct (set_param_study vt (d_params d)) as [ps'|]; [|discriminate].
+  destruct (validate vt (d_features d) ps') as [[]| |] eqn:V; try discriminate.
+  injection H as <-. now apply validated_spacing_ok with (feats := d_features d).
+Qed.
+
+(** exact characterisation of the parameter sets on which [_run] completes (integer precision [k] before the loop) *)
+Definition runnable_core (m : model_shape) (feats : featsv) (ps : dict) : Prop :=
   exists n, lookup "patient_number" ps = Some (VInt n) /\ (2 <= n)%Z /\
             existsb is_null (frame_ids ps) = false /\ existsb is_intid (frame_ids ps) = false /\
             source_dimension m <> 0%nat /\ n_features feats = dimension m /\
-            nodupb (feature_names feats) = true /\ spacing_ok opts dflt vt ps.
+            nodupb (feature_names feats) = true.
 
-Lemma run_ok_iff opts dflt m vt feats ps :
-  run_outcome opts dflt m vt feats ps = Ok tt <-> runnable opts dflt m vt feats ps.
+Definition runnable (dflt : Q) (m : model_shape) (vt : vtype) (feats : featsv) (ps : dict) : Prop :=
+  runnable_core m feats ps /\ spacing_ok dflt vt ps.
+
+Lemma run_ok_iff opts k dflt m vt feats ps :
+  run_outcome opts (Some k) dflt m vt feats ps = Ok tt <-> runnable dflt m vt feats ps.
 Proof.
-  unfold run_outcome, runnable. split.
+  unfold run_outcome, runnable, runnable_core. split.
   - destruct (lookup "patient_number" ps) as [[n| | | | |]|]; try discriminate.
     destruct (existsb is_null (frame_ids ps)) eqn:E1; [discriminate|].
     destruct (source_dimension m =? 0)%nat eqn:E2; [discriminate|].
@@ -522,17 +620,31 @@ Proof.
     destruct (n <=? 0)%Z eqn:E5; [discriminate|].
     destruct (n =? 1)%Z eqn:E6; [discriminate|].
     destruct (nodupb (feature_names feats)) eqn:E7; [|discriminate]. simpl negb. cbv iota.
-    intros H. exists n. apply Z.leb_gt in E5. apply Z.eqb_neq in E6. apply Nat.eqb_neq in E2. apply Nat.eqb_eq in E3.
-    repeat split; try assumption; try lia.
-    unfold spacing_ok. destruct vt; [| |discriminate].
-    + destruct (min_spacing_of dflt ps) as [ms|]; [|discriminate]. exists ms. split; [reflexivity|].
-      destruct (precision_of opts ms); [discriminate | discriminate].
-    + destruct (precision_of opts dflt); [discriminate | discriminate].
-  - intros (n & E & Hn & E1 & E4 & E2 & E3 & E7 & Hs). rewrite E, E1, E4, E7.
+    intros H. apply Z.leb_gt in E5. apply Z.eqb_neq in E6. apply Nat.eqb_neq in E2. apply Nat.eqb_eq in E3.
+    split; [exists n; repeat split; try assumption; lia|].
+    unfold spacing_ok. destruct vt; [| exact I | discriminate].
+    destruct (min_spacing_of dflt ps) as [ms|]; [eauto | discriminate].
+  - intros ((n & E & Hn & E1 & E4 & E2 & E3 & E7) & Hs). rewrite E, E1, E4, E7.
     apply Nat.eqb_neq in E2. apply Nat.eqb_eq in E3. rewrite E2, E3. simpl negb. cbv iota.
     assert (E5 : (n <=? 0)%Z = false) by (apply Z.leb_gt; lia).
     assert (E6 : (n =? 1)%Z = false) by (apply Z.eqb_neq; lia). rewrite E5, E6.
     unfold spacing_ok in Hs. destruct vt; [| |contradiction].
-    + destruct Hs as (ms & -> & Hp). destruct (precision_of opts ms); [reflexivity | contradiction].
-    + destruct (precision_of opts dflt); [reflexivity | contradiction].
+    + destruct Hs as (ms & ->). destruct (precision_total opts k ms) as (p & -> & _). reflexivity.
+    + destruct (precision_total opts k dflt) as (p & -> & _). reflexivity.
+Qed.
+
+(** the whole call: completes exactly on the accepted designs whose stored parameters are [runnable_core] —
+    the spacing no longer matters *)
+Lemma simulate_ok_iff opts k dflt m d :
+  simulate_outcome opts (Some k) dflt m d = Ok tt <->
+  exists ps, construct d = Ok ps /\ runnable_core m (d_features d) ps.
+Proof.
+  unfold simulate_outcome. split.
+  - destruct (construct d) as [ps| |] eqn:C; try discriminate.
+    destruct (d_visit_type d) as [vt|] eqn:V; [|discriminate].
+    intros H. apply run_ok_iff in H. exists ps. split; [reflexivity | apply H].
+  - intros (ps & C & R). rewrite C.
+    destruct (d_visit_type d) as [vt|] eqn:V.
+    + apply run_ok_iff. split; [exact R | now apply (accepted_spacing_ok dflt d ps vt)].
+    + unfold construct in C. rewrite V in C. discriminate.
 Qed.
